@@ -381,18 +381,35 @@ func (self Reflect) listMap(v reflect.Value) node.Node {
 
 type OnListValueChange func(update reflect.Value)
 
+// a case is in the data if any of its nodes is, including nodes of choices nested in the case
+func (self Reflect) mapCaseHasData(v reflect.Value, c *meta.ChoiceCase) bool {
+	for _, d := range c.DataDefinitions() {
+		if nested, isChoice := d.(*meta.Choice); isChoice {
+			for _, caseId := range nested.CaseIdents() {
+				if self.mapCaseHasData(v, nested.Cases()[caseId]) {
+					return true
+				}
+			}
+			continue
+		}
+		mapVal := v.MapIndex(reflect.ValueOf(d.Ident()))
+		if mapVal.IsValid() {
+			return true
+		}
+	}
+	return false
+}
+
 func (self Reflect) childMap(v reflect.Value) node.Node {
 	e := v.Type().Elem()
 	return &Basic{
 		Peekable: v.Interface(),
 		OnChoose: func(state *node.Selection, choice *meta.Choice) (m *meta.ChoiceCase, err error) {
-			for _, c := range choice.Cases() {
-				for _, d := range c.DataDefinitions() {
-					mapKey := reflect.ValueOf(d.Ident())
-					mapVal := v.MapIndex(mapKey)
-					if mapVal.IsValid() {
-						return c, nil
-					}
+			for _, caseId := range choice.CaseIdents() {
+				// by iterating thru case ids and not cases we get a predictable order
+				c := choice.Cases()[caseId]
+				if self.mapCaseHasData(v, c) {
+					return c, nil
 				}
 			}
 			return nil, nil
